@@ -333,6 +333,48 @@ def run_multi(bdir, d, n, bodies):
     return rc, outs, err
 
 
+def run_big_offset(bdir, d):
+    """A stream larger than 4 GiB (two maximal jumbo events, written as holes of a sparse file) with an
+    unsorted region behind offset 2^32: the region must be sorted in place and nothing else touched."""
+    s = Stream(tid=1, pid=1, cpus=[(0, 0)])
+    s.raw_obs = HDR
+    write_trace(d, [s])
+    obs = os.path.join(d, s.relpath, "stream.obs")
+    jsizes = [2**31 - 17, 2**31 - 17, 2**20]      # the largest jumbo size stream_step accepts, twice, and 1 MiB more
+    region = [ev_bytes(100, "OU["), ev_bytes(130, "OB."), ev_bytes(110, "OB."), ev_bytes(120, "OB."), ev_bytes(140, "OU]"),
+              ev_bytes(200, "OHe")]
+    with open(obs, "wb") as f:
+        f.write(HDR + OHX(1))
+        for k, jsize in enumerate(jsizes):
+            f.write(struct.pack("<B3sQI", 0x13, b"OB.", 10 + k, jsize))      # jumbo header + size, data = hole
+            f.seek(jsize, 1)
+        tail_at = f.tell()
+        f.write(b"".join(region))
+        end = f.tell()
+    tool = os.path.join(bdir, "src/emu/ovnisort")
+    rc, _, err = run_tool(tool, [d], timeout=120)
+    with open(obs, "rb") as f:
+        head = f.read(8 + 28 + 16)
+        f.seek(tail_at)
+        tail = f.read(end - tail_at)
+        f.seek((tail_at + 12) % 2**32)
+        wrapped = f.read(36)
+        size = os.fstat(f.fileno()).st_size
+    import shutil
+    shutil.rmtree(d, ignore_errors=True)
+    want = b"".join([region[0], region[2], region[3], region[1], region[4], region[5]])
+    probs = []
+    if rc != 0:
+        probs.append(f"ovnisort exits {rc} on a sortable stream of {end} bytes")
+    if tail != want:
+        probs.append("the region behind offset 2^32 is not sorted in place")
+    if wrapped.strip(b"\0"):
+        probs.append("bytes at the offset modulo 2^32 (inside the first jumbo event) were overwritten")
+    if size != end:
+        probs.append(f"size changed {end} -> {size}")
+    return probs, tail_at, err
+
+
 def hx(b):
     return b.hex() if b else "-"
 
@@ -543,6 +585,15 @@ def check(res, tier, replay=None):
                                                       f"# stream body with short writes: {hx(data[8:])}\n# with full writes: {hx(impl[i]['obs1'][8:])}") or found
                 else:
                     prep.problems.append("shortpwrite shim does not build")
+                # (c) file offsets beyond 4 GiB
+                probs, tail_at, err = run_big_offset(prep.bdir, os.path.join(d, "big"))
+                res.case("big-offset stream")
+                res.dist("pass:offset-beyond-4GiB")
+                if probs:
+                    found = res.violation("oracle:offset-beyond-4GiB", "; ".join(probs),
+                                          f"# stream.obs: header, OHx@1, jumbo OB. events of 2^31-17, 2^31-17 and 2^20 data bytes (holes), then at offset "
+                                          f"{tail_at}: OU[@100 OB.@130 OB.@110 OB.@120 OU]@140 OHe@200; run: ovnisort <trace>\n"
+                                          f"# {'; '.join(probs)}\n# stderr: {err[-500:]!r}") or found
                 # (b) several streams in one trace: every stream is sorted on its own, the result of each equals
                 #     its single-stream result whatever the neighbours hold (the look-back ring is per stream)
                 byn = {}
